@@ -6,6 +6,7 @@ from common import *
 import e2, mirdump
 from e2 import *
 from mirsym import models as MD
+from mirsym import iters as IT
 from mirsym.sym import derives_from
 
 CR = 'crates/anemo/src/crypto.rs'
@@ -90,7 +91,8 @@ def ob_expected_verifier(report, prop):
             return ob.done([ex], 'inconclusive', 'ExpectedCertVerifier::verify_server_cert not found', paths=0)
         fn = fns[0]
         p = Path()
-        p.mem[('H', 'self', 'ExpectedCertVerifier')] = Agg('ExpectedCertVerifier', None, (Sym('inner_verifier', 'CertVerifier'), expected))
+        p.mem[('H', 'self', 'ExpectedCertVerifier')] = struct_agg('crates/anemo/src/crypto.rs', 'ExpectedCertVerifier',
+                                                                    [(r'^CertVerifier$', Sym('inner_verifier', 'CertVerifier')), (r'^PeerId$', expected)])
         args = [Ptr(('H', 'self', 'ExpectedCertVerifier'))] + [Ptr(('H', n, '')) for n in ('end_entity', 'intermediates', 'server_name', 'ocsp')] + [Sym('now', 'UnixTime')]
         for n in ('end_entity', 'intermediates', 'server_name', 'ocsp'):
             p.mem[('H', n, '')] = Sym(n, '')
@@ -140,9 +142,10 @@ def ob_expected_id_flow(report, prop):
             k(p, Sym('pinned_config', 'quinn::ClientConfig').with_ov('pinned', call.args[1]))
 
         def m_connect(ex, p, call, k):
-            p.events.append(Event('connect', 'connect_with_client_config', (call.args[1], call.args[2])))
-            k(p, Sym('connecting_result', 'Result<Connecting>'))
-        ex = e2.executor('anemo', [(r'client_config_with_expected_server_identity$', m_cfg), (r'Endpoint::connect_with_client_config$', m_connect)], max_depth=2)
+            # quinn::Endpoint::connect_with(&self, config, addr, server_name): the external boundary of a dial
+            p.events.append(Event('connect', 'quinn::Endpoint::connect_with', (call.args[1], call.args[2])))
+            k(p, Sym('connecting_result', 'Result<quinn::Connecting, quinn::ConnectError>'))
+        ex = e2.executor('anemo', [(r'client_config_with_expected_server_identity$', m_cfg), (r'quinn::Endpoint::connect_with$', m_connect)], max_depth=4)
         fn = find_method(ex.prog, 'Endpoint', 'connect_with_expected_peer_id')
         pid = z3.BitVec('wanted', 256)
         res = ex.run(fn, [Ptr(('H', 'endpoint', 'Endpoint')), Sym('addr', 'SocketAddr'), pid])
@@ -174,7 +177,7 @@ def ob_expected_id_flow(report, prop):
                 return viol(prop, ob, [ex, ex2], 'pinned client config is not built with a custom certificate verifier', 'flow-verifier-missing', path_summary(r), len(res2))
 
             def is_pinned(v):
-                return isinstance(v, Agg) and v.name == 'ExpectedCertVerifier' and len(v.fields) == 2 and isinstance(v.fields[1], z3.ExprRef) and str(v.fields[1]) == 'wanted'
+                return isinstance(v, Agg) and v.name == 'ExpectedCertVerifier' and len(v.fields) == 2 and any(isinstance(f, z3.ExprRef) and str(f) == 'wanted' for f in v.fields)
             if not derives_from(wc[0].args[1], is_pinned, ex=ex2, p=r.path):
                 return viol(prop, ob, [ex, ex2], 'the verifier installed in the pinned client config is not ExpectedCertVerifier(_, the requested peer id)', 'flow-verifier-id', path_summary(r), len(res2))
             if not derives_from(r.ret, lambda v: isinstance(v, Sym) and vname(wc[0].ret) == v.name, ex=ex2, p=r.path):
@@ -207,13 +210,15 @@ def _run_cert_verifier(which):
     def m_end_entity(ex, p, call, k):
         k(p, Ptr(('H', f'end_entity_of({vname(ex.deref(p, call.args[0]))})', 'EndEntityCert')))
 
-    def m_iter_find(ex, p, call, k):
-        # self.server_names.iter().find(|name| name == dns_name): symbolic membership of the dialed name
-        p.events.append(Event('name-member', 'Iterator::find', (call.args[0], call.args[1])))
-        k(p, Sym('name_in_accepted', 'Option<&String>'))
+    def m_try_from(ex, p, call, k):
+        # ServerName::try_from(name.as_str()): symbolic parse result that remembers the string it was parsed from
+        n = p.seq('tryname')
+        src = ex.deref(p, call.args[0]) if isinstance(call.args[0], Ptr) else call.args[0]
+        k(p, Sym(f'parsed_name{n}', call.retty).with_ov('from', ('ServerName::try_from', (src,))))
     models = [(r'(^|::)prepare_for_self_signed$', m_prepare), (r'EndEntityCert::verify_for_usage$', m_verify_usage),
-              (r'verify_is_valid_for_subject_name$', m_valid_for_name), (r'VerifiedPath::end_entity$', m_end_entity), (r'as Iterator>::find$', m_iter_find)]
-    ex = e2.executor('anemo', models, max_depth=2, unroll=2)
+              (r'verify_is_valid_for_subject_name$', m_valid_for_name), (r'VerifiedPath::end_entity$', m_end_entity),
+              (r'<ServerName as TryFrom>::try_from$', m_try_from)] + IT.ITER_MODELS
+    ex = e2.executor('anemo', models, max_depth=3, unroll=3)
     fns = [f for f in find_fns(ex.prog, rf'^crypto::<impl>::verify_{which}_cert$') if re.search(r'&(crypto::)?CertVerifier$', f.decl.get(f.args[0], ''))]
     if len(fns) != 1:
         raise NotFound(f'CertVerifier::verify_{which}_cert: {len(fns)}')
@@ -246,7 +251,10 @@ def ob_server_cert_verifier(report, prop):
             pre = [e for e in r.events if e.kind == 'prepare']
             vu = [e for e in r.events if e.kind == 'verify-usage']
             nc = [e for e in r.events if e.kind == 'name-check']
-            nm = [e for e in r.events if e.kind == 'name-member']
+            # membership: a search over the verifier's own accepted names whose deciding predicate compares the element with the dialed name
+            nm = [e for e in r.events if e.kind == 'search' and e.args[3].s == 'hit' and _over_accepted_names(ex, r.path, e.args[0])
+                  and re.search(r'eq\(.*\)', str(e.args[2])) and 'server_name' in str(e.args[2]) and re.search(r'self\.\d+(\.deref)?\[#', str(e.args[2]))
+                  and not z3.is_not(e.args[2])]
             if len(pre) != 1 or vname(pre[0].args[0]) != 'end_entity' or 'prepared.discr == 0' not in pcs:
                 return viol(prop, ob, [ex], 'server certificate accepted without preparing the self-signed chain from the presented end-entity certificate', 'srv-prepare', path_summary(r), len(res))
             if len(vu) != 1 or 'usage_result.discr == 0' not in pcs:
@@ -256,7 +264,7 @@ def ob_server_cert_verifier(report, prop):
                 return viol(prop, ob, [ex], f'verify_for_usage is not run with (SUPPORTED_SIG_ALGS, the self-signed anchor, now, server_auth): {[vrepr(x)[:40] for x in a]}', 'srv-usage-args', path_summary(r), len(res))
             if 'prepared@Ok.0' not in vname(a[0]) or 'prepared@Ok.0' not in vname(a[2]):
                 return viol(prop, ob, [ex], 'verify_for_usage does not use the end-entity certificate as its own trust anchor', 'srv-anchor', path_summary(r), len(res))
-            if not nm or 'name_in_accepted.discr == 1' not in pcs:
+            if not nm:
                 return viol(prop, ob, [ex], 'server certificate accepted without the dialed name being one of this endpoint\'s accepted network names', 'srv-name-membership', path_summary(r), len(res))
             if not re.search(r'server_name\.discr == \d+', pcs):
                 return viol(prop, ob, [ex], 'the kind of the dialed ServerName (DNS name) is not checked', 'srv-name-kind', path_summary(r), len(res))
@@ -270,27 +278,20 @@ def ob_server_cert_verifier(report, prop):
                    'that name', ['CertVerifier::verify_server_cert', 'prepare_for_self_signed'], {'webpki/rustls': 'results symbolic', 'loop_unroll': 2}, body)
 
 
+def _over_accepted_names(ex, p, it):
+    """the abstract iterator walks (a pipeline rooted in) the verifier's own `server_names`"""
+    for _ in range(6):
+        c = IT._coll(ex, p, it.fields[0])
+        inner = c.get_ov('collected') if isinstance(c, Sym) else None
+        if inner is None:
+            return re.fullmatch(r'self\.\d+(\.deref)?', vname(c)) is not None
+        it = inner
+    return False
+
+
 def ob_client_cert_verifier(report, prop):
     def body(ob):
         ex, fn = _run_cert_verifier('client')
-
-        def m_collect(ex_, p, call, k):
-            k(p, Sym('parsed_names', 'Result<Vec<ServerName>, InvalidDnsNameError>'))
-
-        def m_any(ex_, p, call, k):
-            # run the predicate once on a symbolic accepted name
-            outs = []
-            q = p.clone()
-            saved = ex_.results
-            ex_.results = []
-            ex_.call_closure(q, call.args[1], [Sym('accepted_name', 'ServerName')], call, lambda q2, ret: outs.append((q2, ret)))
-            ex_.results = saved
-            evs = []
-            for q2, ret in outs:
-                evs += [e for e in q2.events[len(p.events):] if e.kind == 'name-check']
-            p.events.append(Event('any-name', 'Iterator::any', (tuple(evs), tuple(ret for _, ret in outs))))
-            k(p, z3.Bool('some_name_valid'))
-        ex.models = [(re.compile(r'as Iterator>::collect$'), m_collect), (re.compile(r'as Iterator>::any$'), m_any)] + ex.models
         p = Path()
         for n in ('end_entity', 'intermediates'):
             p.mem[('H', n, '')] = Sym(n, '')
@@ -308,27 +309,33 @@ def ob_client_cert_verifier(report, prop):
             pcs = ' '.join(str(z3.simplify(c)).replace('\n', ' ') for c in r.pc)
             pre = [e for e in r.events if e.kind == 'prepare']
             vu = [e for e in r.events if e.kind == 'verify-usage']
-            an = [e for e in r.events if e.kind == 'any-name']
             if len(pre) != 1 or vname(pre[0].args[0]) != 'end_entity' or 'prepared.discr == 0' not in pcs:
                 return viol(prop, ob, [ex], 'client certificate accepted without preparing the self-signed chain from the presented certificate', 'cli-prepare', path_summary(r), len(res))
             if len(vu) != 1 or 'usage_result.discr == 0' not in pcs or not any('client_auth' in vrepr(x) for x in vu[0].args) or 'SUPPORTED_SIG_ALGS' not in vrepr(vu[0].args[1]):
                 return viol(prop, ob, [ex], 'client certificate accepted without a successful webpki verify_for_usage(Ed25519 only, client_auth)', 'cli-usage', path_summary(r), len(res))
-            if len(an) != 1 or 'some_name_valid' not in pcs or 'Not(some_name_valid)' in pcs:
-                return viol(prop, ob, [ex], 'client certificate accepted without any accepted network name being checked against it', 'cli-name-required', path_summary(r), len(res))
-            checks, rets = an[0].args
-            if len(checks) != 1 or vname(checks[0].args[1]) != 'accepted_name' or 'usage_result@Ok.0' not in vname(checks[0].args[0]):
-                return viol(prop, ob, [ex], 'the per-name predicate does not test the verified client certificate against that accepted name', 'cli-name-predicate', path_summary(r), len(res))
-            # predicate result must be exactly "the name check succeeded"
-            nv = z3.BitVec(vname(checks[0].ret) + '.discr', 64)
-            for rv in rets:
-                if not isinstance(rv, z3.ExprRef) or e2.solve([rv != (nv == 0)], want_model=False)[0] != 'unsat':
-                    return viol(prop, ob, [ex], f'the per-name predicate is true although the certificate is not valid for that name (predicate = {vrepr(rv)[:80]})', 'cli-name-predicate-result', path_summary(r), len(res))
+            # some accepted network name of THIS verifier must have been checked against the verified certificate, successfully
+            good = []
+            for e in r.events:
+                if e.kind != 'name-check':
+                    continue
+                from_own = derives_from(e.args[1], lambda v: isinstance(v, Sym) and re.fullmatch(r'self\.\d+(\.deref)?\[#[\d.]+\]', v.name) is not None, ex=ex, p=r.path)
+                on_cert = 'usage_result@Ok.0' in vname(e.args[0])
+                okd = e2.solve(r.pc + [z3.BitVec(vname(e.ret) + '.discr', 64) != 0], want_model=False)[0] == 'unsat'
+                ex.queries += 1
+                if from_own and on_cert and okd:
+                    good.append(e)
+            if not good:
+                nc = [e for e in r.events if e.kind == 'name-check']
+                if not nc:
+                    return viol(prop, ob, [ex], 'client certificate accepted without any accepted network name being checked against it', 'cli-name-required', path_summary(r), len(res))
+                return viol(prop, ob, [ex], 'client certificate accepted although no check of the verified certificate against one of this endpoint\'s accepted names succeeded '
+                            f'(checks on this path: {[(vrepr(e.args[0])[:40], vrepr(e.args[1])[:40]) for e in nc]})', 'cli-name-predicate', path_summary(r), len(res))
         if not ok_paths:
             return ob.done([ex], 'inconclusive', 'vacuity: no accepting path', paths=len(res))
         ob.done([ex], 'held', '', {'paths': len(res), 'accepting_paths': ok_paths}, paths=len(res))
     return guarded(report, 'client_cert_requires_accepted_name', 'CertVerifier::verify_client_cert returns Ok only if webpki verify_for_usage(Ed25519 only, client_auth) on the self-anchored certificate '
-                   'succeeded and the verified certificate is valid for at least one accepted network name (predicate true iff verify_is_valid_for_subject_name is Ok)',
-                   ['CertVerifier::verify_client_cert'], {'webpki': 'results symbolic'}, body)
+                   'succeeded and verify_is_valid_for_subject_name of the verified certificate succeeded for a name parsed from one of this verifier\'s accepted network names',
+                   ['CertVerifier::verify_client_cert'], {'webpki': 'results symbolic', 'server_names': 'abstract collection (generic element) / finite vectors up to 3 pushes'}, body)
 
 
 def ob_client_auth_mandatory(report, prop):
